@@ -7,3 +7,22 @@ TEXT["C15"] = {
     "level_note": "Trusted: Lean kernel; propext/Classical.choice/Quot.sound only; HashMap modelled as a finite map (Std.HashMap lemmas getElem?_insert); fidelity of the 20-line model to transposition.rs as far as the generated correspondence explores it.",
     "technique": "Lean 4 refinement proof by induction on operation sequences + differential correspondence (impl vs model vs spec)",
 }
+HOOK_COMMITS += ["ef90a68", "663b385", "3456f97", "6e85357", "b7bac30"]
+TEXT["C14"] = {
+    "level_text": "Machine-checked: the score returned by evaluate is a function of the board alone for every prior evaluator state and every order of calls on one evaluator (eval_pure, eval_calls, induction over the call list), never reads rights/ep/counters (eval_placement_only); antisymmetry under side flip, mirror invariance and the magnitude bound are separate theorem files (see evidence 'theorems' for which are discharged in this run). PST tables are re-extracted from eval.rs on every run.",
+    "design_ref": "DESIGN.md section 6, C14",
+    "level_note": "Trusted: Lean kernel, standard axioms, extractor, model fidelity as explored by the correspondence (valid + malformed boards, shared evaluator, flip/mirror relations compared against the spec column).",
+    "technique": "Lean 4 theorems over an executable model of eval.rs (tables generated from source) + differential correspondence incl. flip/mirror relations",
+}
+TEXT["C11"] = {
+    "level_text": "Machine-checked for every key table: same position => same hash whatever the counters or the path (hash_position_only, hash_ignores_counters); flipping the side XORs exactly the white-to-move key, so the hash changes when that key is non-zero (hash_flip_side, hash_side_changes); the literal 'iff for every key draw' is refuted by hash_not_injective (all-zero keys), which is why sensitivity carries KeysGood. hash = XOR of feature keys and the remaining single-component theorems are in Props/C11Xor.lean when discharged. Every real key draw in the run is checked for KeysGood.",
+    "design_ref": "DESIGN.md section 6, C11",
+    "level_note": "Trusted: Lean kernel, standard axioms, model fidelity (exact hash values compared under the engine's real drawn keys), thread_rng outside the model.",
+    "technique": "Lean 4 theorems quantified over all key tables + differential correspondence under real key draws",
+}
+TEXT["C12"] = {
+    "level_text": "Machine-checked for all clock/increment values: the budget is <= the mover's remaining time and < it whenever time remains (budget_le, budget_lt, calculated_budget_fits), reads only the mover's own two values (budget_white_own/black_own), cannot overflow u64 below 2^62 ms. The defect the property file names (budget above the clock when inc > time) was reproduced by this check and repaired by a fix: commit in /repo; the margin literal is re-extracted from uci.rs so removing the cap re-opens budget_lt. The token-loop theorem for all orders of the four pairs is in Props/C12Parse.lean when discharged.",
+    "design_ref": "DESIGN.md section 6, C12",
+    "level_note": "Trusted: Lean kernel, standard axioms, extractor, parser model fidelity as explored by the correspondence through the real parser hook.",
+    "technique": "Lean 4 arithmetic theorems over a model of the go token loops (constants generated from source) + differential correspondence through a parser hook",
+}
